@@ -42,6 +42,9 @@ type (
 	SRem struct {
 		I, W int
 		Form int // remSelf r | remDec r-1 | remNeg -r (= ^r+1) | remInv ^r | remCleared r without its lowest set bit
+		// High: the walk goes from the highest set bit down; I is then the index
+		// of the HIGHEST set bit of r (and remCleared is r without that bit).
+		High bool
 	}
 )
 
@@ -59,7 +62,11 @@ func (s SBoth) String() string {
 func (s SScaled) String() string { return s.X.String() }
 
 func (s SRem) String() string {
-	return fmt.Sprintf("rem(%s, lowest bit %d)", [...]string{"r", "r-1", "-r", "^r", "r&(r-1)"}[s.Form], s.I)
+	which := "lowest"
+	if s.High {
+		which = "highest"
+	}
+	return fmt.Sprintf("rem(%s, %s bit %d)", [...]string{"r", "r-1", "-r", "^r", "r&(r-1)"}[s.Form], which, s.I)
 }
 
 // lowBit is the constant 1<<I.
@@ -494,12 +501,12 @@ func (ev *Evaluator) Eval(e ast.Expr) Sym {
 		if e.Op == token.NOT {
 			return SNot{ev.Eval(e.X)}
 		}
-		if r, ok := ev.Eval(e.X).(SRem); ok && r.Form == remSelf {
+		if r, ok := ev.Eval(e.X).(SRem); ok && r.Form == remSelf && !r.High {
 			switch e.Op {
 			case token.SUB:
-				return SRem{r.I, r.W, remNeg}
+				return SRem{r.I, r.W, remNeg, false}
 			case token.XOR:
-				return SRem{r.I, r.W, remInv}
+				return SRem{r.I, r.W, remInv, false}
 			}
 		}
 		return SUnknown{"operator " + e.Op.String()}
@@ -608,8 +615,14 @@ func (ev *Evaluator) bitsCall(call *ast.CallExpr) (Sym, bool) {
 	name := strings.TrimRight(fn.Name(), "0123456789")
 	switch a := ev.Eval(call.Args[0]).(type) {
 	case SRem:
-		if name == "TrailingZeros" && a.Form == remSelf && w >= a.W {
+		if name == "TrailingZeros" && a.Form == remSelf && w >= a.W && !a.High {
 			return SConst{constant.MakeInt64(int64(a.I))}, true
+		}
+		if name == "Len" && a.Form == remSelf && a.High {
+			return SConst{constant.MakeInt64(int64(a.I + 1))}, true
+		}
+		if name == "LeadingZeros" && a.Form == remSelf && a.High && w >= a.W {
+			return SConst{constant.MakeInt64(int64(w - 1 - a.I))}, true
 		}
 	case SConst:
 		u, ok := constant.Uint64Val(a.V)
@@ -645,7 +658,7 @@ func remOp(op token.Token, x, y Sym) (Sym, bool) {
 	one := constant.MakeInt64(1)
 	pair := func(a, b, p, q int) bool { return (a == p && b == q) || (a == q && b == p) }
 	switch {
-	case okx && oky && rx.I == ry.I && rx.W == ry.W:
+	case okx && oky && rx.I == ry.I && rx.W == ry.W && !rx.High && !ry.High:
 		a, b := rx.Form, ry.Form
 		switch op {
 		case token.AND:
@@ -653,7 +666,7 @@ func remOp(op token.Token, x, y Sym) (Sym, bool) {
 				return rx.lowBit(), true
 			}
 			if pair(a, b, remSelf, remDec) {
-				return SRem{rx.I, rx.W, remCleared}, true
+				return SRem{rx.I, rx.W, remCleared, false}, true
 			}
 		case token.AND_NOT:
 			if a == remSelf && b == remDec {
@@ -670,19 +683,19 @@ func remOp(op token.Token, x, y Sym) (Sym, bool) {
 		}
 	case okx && coky:
 		switch {
-		case rx.Form == remSelf && op == token.SUB && is(cy, one):
-			return SRem{rx.I, rx.W, remDec}, true
+		case rx.Form == remSelf && op == token.SUB && is(cy, one) && !rx.High:
+			return SRem{rx.I, rx.W, remDec, false}, true
 		case rx.Form == remSelf && (op == token.SUB || op == token.XOR || op == token.AND_NOT) && is(cy, rx.lowBit().V):
-			return SRem{rx.I, rx.W, remCleared}, true
-		case rx.Form == remInv && op == token.ADD && is(cy, one):
-			return SRem{rx.I, rx.W, remNeg}, true
+			return SRem{rx.I, rx.W, remCleared, rx.High}, true
+		case rx.Form == remInv && op == token.ADD && is(cy, one) && !rx.High:
+			return SRem{rx.I, rx.W, remNeg, false}, true
 		}
 	case cokx && oky:
 		switch {
-		case ry.Form == remInv && op == token.ADD && is(cx, one):
-			return SRem{ry.I, ry.W, remNeg}, true
+		case ry.Form == remInv && op == token.ADD && is(cx, one) && !ry.High:
+			return SRem{ry.I, ry.W, remNeg, false}, true
 		case ry.Form == remSelf && op == token.XOR && is(cx, ry.lowBit().V):
-			return SRem{ry.I, ry.W, remCleared}, true
+			return SRem{ry.I, ry.W, remCleared, ry.High}, true
 		}
 	}
 	return nil, false
@@ -712,46 +725,134 @@ func (ev *Evaluator) inline(call *ast.CallExpr) Sym {
 	if ev.Source == nil || ev.depth >= 3 {
 		return SUnknown{"call"}
 	}
-	fn := StaticCallee(ev.Info, call)
-	if fn == nil {
-		return SUnknown{"dynamic call"}
-	}
-	fd, info := ev.Source(fn)
-	if fd == nil || fd.Body == nil || info == nil {
-		return SUnknown{"call to " + fn.FullName()}
-	}
-	sig := fn.Type().(*types.Signature)
-	env := map[types.Object]Sym{}
-	if sig.Recv() != nil {
-		sel, ok := ast.Unparen(call.Fun).(*ast.SelectorExpr)
-		if !ok {
-			return SUnknown{"method value"}
-		}
-		if fd.Recv != nil && len(fd.Recv.List) == 1 && len(fd.Recv.List[0].Names) == 1 {
-			if o := info.Defs[fd.Recv.List[0].Names[0]]; o != nil {
-				env[o] = ev.Eval(sel.X)
+	fun := call.Fun
+	if ix, ok := ast.Unparen(fun).(*ast.IndexExpr); ok { // explicit instantiation f[T](…)
+		if tv, ok := ev.Info.Types[ix.X]; ok && tv.Type != nil {
+			if _, isSig := tv.Type.Underlying().(*types.Signature); isSig {
+				fun = ix.X
 			}
 		}
 	}
-	i := 0
-	for _, f := range fd.Type.Params.List {
-		for _, n := range f.Names {
-			if i < len(call.Args) {
-				if o := info.Defs[n]; o != nil {
-					env[o] = ev.Eval(call.Args[i])
+	if ix, ok := ast.Unparen(fun).(*ast.IndexListExpr); ok {
+		fun = ix.X
+	}
+	// what is called: a declared function / method, or a function value that
+	// resolves statically (a field of a bound table row, a once-defined local):
+	// a method expression T.M, a function name, a function literal
+	var (
+		info   *types.Info
+		ftype  *ast.FuncType
+		body   *ast.BlockStmt
+		recv   *ast.FieldList
+		name   string
+		args   []Sym
+		method bool
+	)
+	for _, a := range call.Args {
+		args = append(args, ev.Eval(a))
+	}
+	byFunc := func(fn *types.Func) string {
+		fd, finfo := ev.Source(fn)
+		if fd == nil || fd.Body == nil || finfo == nil {
+			return "call to " + fn.FullName()
+		}
+		info, ftype, body, recv, name = finfo, fd.Type, fd.Body, fd.Recv, fn.Name()
+		method = fn.Type().(*types.Signature).Recv() != nil
+		if fn.Type().(*types.Signature).Variadic() {
+			return "variadic call"
+		}
+		return ""
+	}
+	if fn := StaticCallee(ev.Info, &ast.CallExpr{Fun: fun}); fn != nil {
+		if why := byFunc(fn); why != "" {
+			return SUnknown{why}
+		}
+		if method {
+			sel, ok := ast.Unparen(fun).(*ast.SelectorExpr)
+			if !ok {
+				return SUnknown{"method value"}
+			}
+			// T.M(x, …) passes the receiver as the first argument already
+			if tv, isType := ev.Info.Types[sel.X]; !(isType && tv.IsType()) {
+				args = append([]Sym{ev.Eval(sel.X)}, args...)
+			}
+		}
+	} else {
+		if tv, ok := ev.Info.Types[fun]; ok && (tv.IsType() || tv.IsBuiltin()) {
+			return SUnknown{"conversion or builtin"}
+		}
+		v, why := ev.Static(fun)
+		if why != "" {
+			return SUnknown{"dynamic call"}
+		}
+		switch f := ast.Unparen(v.E).(type) {
+		case *ast.FuncLit:
+			info, ftype, body, name = v.Info, f.Type, f.Body, "a function literal"
+		case *ast.Ident:
+			fn, _ := v.Info.Uses[f].(*types.Func)
+			if fn == nil {
+				return SUnknown{"dynamic call"}
+			}
+			if why := byFunc(fn); why != "" {
+				return SUnknown{why}
+			}
+		case *ast.SelectorExpr:
+			fn, _ := v.Info.Uses[f.Sel].(*types.Func)
+			if fn == nil {
+				return SUnknown{"dynamic call"}
+			}
+			if why := byFunc(fn); why != "" {
+				return SUnknown{why}
+			}
+			if method {
+				// only the method expression T.M (receiver passed as first argument); a
+				// method value x.M has its receiver bound elsewhere
+				if tv, ok := v.Info.Types[f.X]; !ok || !tv.IsType() {
+					return SUnknown{"method value"}
 				}
 			}
-			i++
+		default:
+			return SUnknown{"dynamic call"}
 		}
 	}
-	if sig.Variadic() || i != len(call.Args) {
+	var params []types.Object
+	if method && recv != nil && len(recv.List) == 1 {
+		if len(recv.List[0].Names) == 1 {
+			params = append(params, info.Defs[recv.List[0].Names[0]])
+		} else {
+			params = append(params, nil)
+		}
+	}
+	if ftype.Params != nil {
+		for _, f := range ftype.Params.List {
+			if _, variadic := f.Type.(*ast.Ellipsis); variadic {
+				return SUnknown{"variadic call"}
+			}
+			if len(f.Names) == 0 {
+				params = append(params, nil)
+			}
+			for _, n := range f.Names {
+				params = append(params, info.Defs[n])
+			}
+		}
+	}
+	if len(params) != len(args) {
 		return SUnknown{"call arity"}
 	}
-	sub := &Evaluator{Info: info, Env: env, Defs: SingleDefs(info, fd.Body), OkDefs: CommaOkDefs(info, fd.Body), Source: ev.Source, Vars: ev.Vars, Tables: ev.Tables, depth: ev.depth + 1}
-	sub.WithResults(info, fd.Type)
-	s, why := sub.BoolResult(fd.Body)
+	env := map[types.Object]Sym{}
+	for i, p := range params {
+		if p != nil {
+			if assigned(info, body, p) {
+				return SUnknown{"the callee " + name + " changes its parameter " + p.Name()}
+			}
+			env[p] = args[i]
+		}
+	}
+	sub := &Evaluator{Info: info, Env: env, Defs: SingleDefs(info, body), OkDefs: CommaOkDefs(info, body), Source: ev.Source, Vars: ev.Vars, Tables: ev.Tables, depth: ev.depth + 1}
+	sub.WithResults(info, ftype)
+	s, why := sub.BoolResult(body)
 	if s == nil {
-		return SUnknown{"helper " + fn.Name() + ": " + why}
+		return SUnknown{"helper " + name + ": " + why}
 	}
 	return s
 }
@@ -1949,9 +2050,17 @@ func (ev *Evaluator) enterHelper(call *ast.CallExpr) (*Evaluator, *ast.FuncDecl)
 	bind := map[types.Object]Val{}
 	word := false
 	lost := ""
-	var lostParam types.Object
+	var lostParam, sink types.Object
 	give := func(param types.Object, arg ast.Expr) {
 		if param == nil {
+			return
+		}
+		// a callback that only collects what it is given (`func(name string) { out =
+		// append(out, name) }`): calling it is reporting the value
+		if _, isFunc := param.Type().Underlying().(*types.Signature); isFunc {
+			if ev.isSink(arg) && sink == nil && !assigned(info, fd.Body, param) {
+				sink = param
+			}
 			return
 		}
 		s := ev.Eval(arg)
@@ -1996,7 +2105,54 @@ func (ev *Evaluator) enterHelper(call *ast.CallExpr) (*Evaluator, *ast.FuncDecl)
 		return nil, nil
 	}
 	return &Evaluator{Info: info, Env: env, Bind: bind, Defs: SingleDefs(info, fd.Body), OkDefs: CommaOkDefs(info, fd.Body), Source: ev.Source, Vars: ev.Vars,
-		Tables: ev.Tables, depth: ev.depth + 1, wordLost: lost, lostParam: lostParam}, fd
+		Tables: ev.Tables, depth: ev.depth + 1, wordLost: lost, lostParam: lostParam, yield: sink}, fd
+}
+
+// isSink: e is a function literal (or a local defined once as one) whose body
+// only appends its parameters to an accumulator / writes them to a builder.
+func (ev *Evaluator) isSink(e ast.Expr) bool {
+	e = ast.Unparen(e)
+	if id, ok := e.(*ast.Ident); ok {
+		rhs, ok := ev.Defs[ev.Info.Uses[id]]
+		if !ok {
+			return false
+		}
+		e = ast.Unparen(rhs)
+	}
+	fl, ok := e.(*ast.FuncLit)
+	if !ok || fl.Type.Params == nil || len(fl.Body.List) != 1 {
+		return false
+	}
+	params := map[types.Object]bool{}
+	for _, f := range fl.Type.Params.List {
+		for _, n := range f.Names {
+			if o := ev.Info.Defs[n]; o != nil {
+				params[o] = true
+			}
+		}
+	}
+	isParam := func(x ast.Expr) bool {
+		id, ok := ast.Unparen(x).(*ast.Ident)
+		return ok && params[ev.Info.Uses[id]]
+	}
+	st := fl.Body.List[0]
+	if as, ok := st.(*ast.AssignStmt); ok && len(as.Lhs) == 1 && len(as.Rhs) == 1 {
+		call, ok := ast.Unparen(as.Rhs[0]).(*ast.CallExpr)
+		if !ok || !isBuiltin(ev.Info, call, "append") || len(call.Args) < 2 || call.Ellipsis.IsValid() ||
+			types.ExprString(as.Lhs[0]) != types.ExprString(call.Args[0]) {
+			return false
+		}
+		for _, a := range call.Args[1:] {
+			if !isParam(a) {
+				return false
+			}
+		}
+		return true
+	}
+	if _, arg, ok := builderWrite(ev.Info, st); ok {
+		return isParam(arg)
+	}
+	return false
 }
 
 // MapRanges returns the range statements of body whose operand is a map.
